@@ -225,12 +225,14 @@ func (c *Conn) Read(p []byte) (int, error) {
 			n = len(p)
 		}
 		if c.n.Frag && n > 1 {
-			// tape-chosen fragment size; bias to whole and to tiny
-			switch c.n.R.Tape.Draw(4) {
+			// tape-chosen fragment size: mostly whole, sometimes a random split, rarely tiny
+			switch c.n.R.Tape.Draw(8) {
 			case 0:
 				n = 1 + c.n.R.Tape.Draw(n)
 			case 1:
-				n = 1
+				if n > 3 {
+					n = 1 + c.n.R.Tape.Draw(3)
+				}
 			}
 		}
 		copy(p, c.buf[:n])
